@@ -1139,6 +1139,65 @@ theorem gen_bump (o : Obj) (w : Win) (h : (o.setWindow w).1 = false) :
   · rename_i hv; simp [hv] at h
   · simp [ArithC13.bumpWindow]
 
+/-! ## 16. Rescaling: anomalies and phase means are homogeneous, windows follow the time unit -/
+
+/-- **`anomaly()` is homogeneous**: rescaling the observable by any factor `k` (a change of
+unit, e.g. a power of two) rescales every anomaly by `k` -/
+theorem anomaly_rescale (k : Rat) (c n : Nat) (obs : Mat) (hc : 0 < c) :
+    anomalyOf c n (msmul k obs) = msmul k (anomalyOf c n obs) := by
+  rw [anomalyOf_closed c n _ hc, anomalyOf_closed c n obs hc]
+  apply List.ext_getElem
+  · simp [msmul]
+  · intro t h1 h2
+    simp only [msmul, List.length_map, List.getElem_zipWith, List.getElem_range, List.getElem_map]
+    have := meanRow_smul k c n obs (t % c)
+    simp only [msmul] at this
+    rw [this, vsub_smul]
+
+/-- **`phase_mean()` is homogeneous** (NaN rows stay NaN rows) -/
+theorem phaseMean_rescale (k : Rat) (c n : Nat) (obs : Mat) :
+    phaseMeanLoop c n (msmul k obs) = (phaseMeanLoop c n obs).map (Option.map (smul k)) := by
+  rw [phaseMeanLoop_eq, phaseMeanLoop_eq]
+  simp only [phaseMean, List.map_map]
+  apply List.map_congr_left
+  intro i _
+  have e : everyNth c i (msmul k obs) = msmul k (everyNth c i obs) := everyNth_map _ _ _ _
+  simp only [Function.comp, colMean, e]
+  by_cases he : everyNth c i obs = []
+  · simp [he, msmul]
+  · have he' : msmul k (everyNth c i obs) ≠ [] := by simpa [msmul] using he
+    have h1 : (msmul k (everyNth c i obs)).isEmpty = false := by simpa using he'
+    have h2 : (everyNth c i obs).isEmpty = false := by simpa using he
+    simp only [h1, h2, Bool.false_eq_true, if_false, Option.map_some, Option.some.injEq]
+    rw [colSum_smul]
+    simp only [msmul, smul, List.length_map, List.map_map]
+    apply List.map_congr_left
+    intro x _
+    simp only [Function.comp, Rat.div_def, Rat.mul_assoc]
+
+/-- **the window follows the time unit**: rescaling the time axis and the time bounds by the
+same positive factor selects the same samples (also in the coinciding-bounds convention) -/
+theorem timeMask_rescale (k : Rat) (hk : 0 < k) (w : Win) (time : Vec) :
+    timeMask { w with tmin := k * w.tmin, tmax := k * w.tmax } (time.map (k * ·))
+      = timeMask w time := by
+  have hle : ∀ a b : Rat, k * a ≤ k * b ↔ a ≤ b := fun a b =>
+    ⟨fun h => Rat.le_of_mul_le_mul_left h hk,
+     fun h => Rat.mul_le_mul_of_nonneg_left h (Rat.le_of_lt hk)⟩
+  have hinj : k * w.tmin = k * w.tmax ↔ w.tmin = w.tmax := by
+    constructor
+    · intro h
+      exact Rat.le_antisymm ((hle _ _).mp (by rw [h]; exact Rat.le_refl))
+        ((hle _ _).mp (by rw [h]; exact Rat.le_refl))
+    · intro h; rw [h]
+  unfold timeMask
+  by_cases h : w.tmin = w.tmax
+  · simp [h]
+  · have h' : ¬ k * w.tmin = k * w.tmax := fun x => h (hinj.mp x)
+    simp only [h, h', if_false, List.map_map]
+    apply List.map_congr_left
+    intro x _
+    simp [inRange, hle]
+
 /-! ## 7. Non-vacuity: concrete states satisfying the hypotheses -/
 
 /-- 7 time stamps, 3 irregular nodes -/
@@ -1202,6 +1261,12 @@ example : ∃ o, Obj.init ⟨(List.range 26).map (fun (t : Nat) => (t : Rat)), [
       (List.range 26).map (fun (t : Nat) => [((t * t : Nat) : Rat)])⟩ 12 false none = some o
     ∧ ((o.setWindow ⟨1, 25, 0, 0, 0, 0⟩).2.anomalySelectedMonths [0, -1]).1
         = .ok [[-264], [-216], [-96], [216]] := ⟨_, rfl, by decide +kernel⟩
+
+/-- rescaling by a power of two -/
+example : anomalyOf 3 1 (msmul 1024 [[0], [12], [24], [36], [48], [12], [0]])
+    = msmul 1024 [[-12], [-18], [6], [24], [18], [-6], [-12]] := by decide +kernel
+example : timeMask ⟨8, 40, 0, 0, 0, 0⟩ ([0, 1, 2, 3, 4, 5, 6].map ((8 : Rat) * ·))
+    = [false, true, true, true, true, true, false] := by decide +kernel
 
 /-! ## 8. The pinned code (before the `fix:` commits) violated the property
 
